@@ -42,6 +42,8 @@ type Membership struct {
 	OrderedCalls int
 	Interfere    func(ctx context.Context, where string)
 	LastCtx      context.Context
+	// OrderedCommittee, if set, gives the ordered committee per block height (membership changes between heights)
+	OrderedCommittee func(h primitives.BlockHeight) []interfaces.CommitteeMember
 	// ProofCommittee, if set, gives the committee per block height (committees may change between heights)
 	ProofCommittee func(h primitives.BlockHeight) []interfaces.CommitteeMember
 	ProofRequests  []ProofCommitteeRequest
@@ -62,6 +64,9 @@ func (m *Membership) RequestOrderedCommittee(ctx context.Context, blockHeight pr
 	}
 	if m.FailOrdered {
 		return nil, ErrStub
+	}
+	if m.OrderedCommittee != nil {
+		return m.OrderedCommittee(blockHeight), nil
 	}
 	return m.Committee, nil
 }
